@@ -31,7 +31,6 @@ import (
 	"github.com/formancehq/ledger/pkg/features"
 )
 
-var c10Stored *Log
 
 // the bytea literal of the memento column in the INSERT statement bun renders: '\x<hex>' as the last value
 var c10MementoRe = regexp.MustCompile(`'\\x([0-9a-f]*)'\)\s*RETURNING`)
@@ -60,20 +59,6 @@ type c10Rows struct{}
 func (c10Rows) Columns() []string         { return []string{} }
 func (c10Rows) Close() error              { return nil }
 func (c10Rows) Next([]driver.Value) error { return io.EOF }
-
-type c10Result struct{}
-
-func (c10Result) LastInsertId() (int64, error) { return 0, nil }
-func (c10Result) RowsAffected() (int64, error) { return 1, nil }
-
-func verifBunExecInsert(model any) (sql.Result, error) {
-	if l, ok := model.(*Log); ok {
-		c10Stored = l
-	}
-	return c10Result{}, nil
-}
-
-func verifBunExecRaw(query string) (sql.Result, error) { return c10Result{}, nil }
 
 func c10Check(payload ledger.LogPayload, ik string) {
 	l := ledger.Ledger{Name: "l1", ID: 7}
